@@ -126,9 +126,12 @@ struct CountingToken {
       World* w; bool* executed; F f;
       void operator()() noexcept { *executed = true; --w->regs; f(); }   // f() may destroy this callback object
     };
-    World* w; bool executed = false; unifex::inplace_stop_callback<Wrapped> cb;
-    template <class F2> callback_type(CountingToken t, F2&& f) : w(t.w), cb(t.tok, Wrapped{t.w, &executed, F((F2&&)f)}) { ++w->regs; }
-    ~callback_type() { if (!executed) --w->regs; }
+    // Members die in reverse order: cb first (its destructor deregisters and, if the callback is running on another
+    // thread, waits for it), then `count`, which settles the account: a callback that was dequeued for execution has
+    // already been subtracted by Wrapped::operator().
+    struct Count { World* w; bool* executed; ~Count() { if (!*executed) --w->regs; } };
+    World* w; bool executed = false; Count count; unifex::inplace_stop_callback<Wrapped> cb;
+    template <class F2> callback_type(CountingToken t, F2&& f) : w(t.w), count{t.w, &executed}, cb(t.tok, Wrapped{t.w, &executed, F((F2&&)f)}) { ++w->regs; }
   };
   bool stop_requested() const noexcept { return tok.stop_requested(); }
   bool stop_possible() const noexcept { return tok.stop_possible(); }
